@@ -41,7 +41,11 @@ func c20Part(name string, mk func(thorough bool) *c20Cfg) explore.Part {
 		if len(cfg.starts) > 0 {
 			init = "chosen by the first event of the history (not counted in the alphabet below): "
 			for i, st := range cfg.starts {
-				init += fmt.Sprintf("start(%d) = %d packets after %d separate loss episodes [one full-size packet sent, reported lost 100 ms later]; ", i, st.pkts, st.losses)
+				ctor := fmt.Sprintf("%d packets", st.pkts)
+				if st.prod {
+					ctor = "exported NewCubicSender (32 packets)"
+				}
+				init += fmt.Sprintf("start(%d) = %s, configured initial packet size %d (constructor argument, no SetMaxDatagramSize), after %d separate loss episodes [one full-size packet sent, reported lost 100 ms later]; ", i, ctor, st.size(), st.losses)
 			}
 		}
 		return explore.BFSSpec{
@@ -116,6 +120,37 @@ func c20PacerMTUCfg(reno bool, initPkts int, dq, dt int) func(bool) *c20Cfg {
 	}
 }
 
+// The range of Config.InitialPacketSize (config.go clamps it to [MinInitialPacketSize,
+// MaxPacketBufferSize]); the default, 1280, is what every other part constructs the sender with.
+const (
+	c20InitLo  = protocol.ByteCount(protocol.MinInitialPacketSize) // 1200
+	c20InitHi  = protocol.ByteCount(protocol.MaxPacketBufferSize)  // 1452
+	c20InitMid = protocol.ByteCount(1350)
+)
+
+// pacer gate with a CONFIGURED initial packet size other than the default: the first event
+// of a history chooses how the sender was constructed (internal constructor with a 4-packet
+// window, or the exported NewCubicSender as sentPacketHandler calls it; size above / below
+// 1280); no SetMaxDatagramSize precedes the history (path MTU discovery disabled, or no
+// probe acknowledged yet), one may occur inside it. Everything the pacer clause uses (full
+// packet size, burst) follows the configured size. Same narrow alphabet as the pacer-mtu parts.
+func c20PacerInitCfg(reno bool, dq, dt int) func(bool) *c20Cfg {
+	return func(th bool) *c20Cfg {
+		c := &c20Cfg{reno: reno, initPkts: 4, depth: dq, pacer: true,
+			starts:   []c20Start{{pkts: 4, mds: c20InitHi}, {pkts: 4, mds: c20InitLo}, {prod: true, pkts: 32, mds: c20InitHi}},
+			mtuSteps: []protocol.ByteCount{48}, maxMTU: 1,
+			sizes: []int{0, 3}, burst: true, paced: 8, early: 8, acks: []int{0}, losses: []int{0},
+			rtts: []time.Duration{time.Millisecond, 100 * time.Millisecond}, maxRTTOps: 1,
+			steps: []time.Duration{time.Microsecond, 100 * time.Microsecond}, advPace: true, advGate: true,
+		}
+		if th {
+			c.depth = dt
+			c.starts = append(c.starts, c20Start{pkts: 4, mds: c20InitMid}, c20Start{pkts: 4, mds: c20MDS0 + 1}, c20Start{prod: true, pkts: 32, mds: c20InitLo})
+		}
+		return c
+	}
+}
+
 // floor: the window starts at, or within one loss reduction (factor 1/0.7) of, the two-packet
 // floor after separate loss episodes (start states chosen by the first event), and whole
 // flights of full / half / quarter size packets are outstanding while losses and
@@ -126,7 +161,7 @@ func c20FloorCfg(reno bool, dq, dt int) func(bool) *c20Cfg {
 		c := &c20Cfg{reno: reno, initPkts: 4, depth: dq,
 			// 3584 (one reduction above the floor), 2688 (ditto, 3*0.7), 2560 (at the floor, the last
 			// reduction was limited by it), 3512 (8 packets after three reductions)
-			starts:    []c20Start{{4, 1}, {3, 1}, {4, 2}, {8, 3}},
+			starts:    []c20Start{{pkts: 4, losses: 1}, {pkts: 3, losses: 1}, {pkts: 4, losses: 2}, {pkts: 8, losses: 3}},
 			sizes:     []int{0},
 			fillSizes: []int{0, 1, 5},
 			acks:      []int{0, 1}, losses: []int{0, 1},
@@ -135,10 +170,17 @@ func c20FloorCfg(reno bool, dq, dt int) func(bool) *c20Cfg {
 		if !reno {
 			c.steps = []time.Duration{time.Second}
 		}
+		// + one start state with a configured initial packet size above the default (3 packets of
+		// 1452 -> 3049 >= 2904; thorough also below it: 3 of 1200 -> 2520 >= 2400): floor, maximum
+		// and "3 packets of room" must follow the configured size without any SetMaxDatagramSize
+		// (quick: Reno = the production algorithm only)
+		if reno || th {
+			c.starts = append(c.starts, c20Start{pkts: 3, losses: 1, mds: c20InitHi})
+		}
 		if th {
 			c.depth = dt
 			c.sizes = []int{0, 1}
-			c.starts = append(c.starts, c20Start{8, 4}, c20Start{32, 7})
+			c.starts = append(c.starts, c20Start{pkts: 8, losses: 4}, c20Start{pkts: 32, losses: 7}, c20Start{pkts: 3, losses: 1, mds: c20InitLo}, c20Start{prod: true, pkts: 32, losses: 7, mds: c20InitHi})
 		}
 		return c
 	}
@@ -168,6 +210,8 @@ func TestVerifC20Cc(t *testing.T) {
 		c20Part("cubic-pacer", c20PacerCfg(false, 4, 5, 6)),
 		c20Part("reno-pacer-mtu", c20PacerMTUCfg(true, 4, 6, 7)),
 		c20Part("cubic-pacer-mtu", c20PacerMTUCfg(false, 4, 5, 6)), // Cubic is not selected by the production constructors: one level less
+		c20Part("reno-pacer-init", c20PacerInitCfg(true, 5, 7)),    // depth counts the start choice
+		c20Part("cubic-pacer-init", c20PacerInitCfg(false, 5, 6)),
 		c20Part("reno-cap", c20CapCfg(true, 6, 8)),
 		c20Part("cubic-cap", c20CapCfg(false, 6, 8)),
 		c20Part("reno-floor", c20FloorCfg(true, 8, 9)),
